@@ -42,6 +42,7 @@ def dispatch (stream : String) : Option (String → String → CaseOut) :=
   | "tree" => some treeCase
   | "remote" => some remoteCase
   | "life" => some lifeCase
+  | "ctxapi" => some ctxApiCase
   | "remotelost" => some remoteLostCase
   | "childsched" => some childSchedCase
   | "provider" => some providerCase
